@@ -37,7 +37,8 @@ fn check_f(ctx: &mut Ctx, sp: &Space<usize>, tt: u64, foreign: bool) {
     ctx.begin_case(|| case.clone());
     ctx.count("evaluations", 1);
     let key = format!("{TAG} api syms={:?}{}: model of f={tt:#x}", sp.syms, if foreign { " (diagram not interned in this environment)" } else { "" });
-    let f = sp.get(tt);
+    // a foreign diagram is handed over as a short-lived copy: the next case's copy reuses its address
+    let f = if foreign { robdd::deep_copy(&sp.get(tt)) } else { sp.get(tt) };
     let env = sp.env.clone();
     let m = match guarded(|| env.model(f.clone())) {
         Err(p) => {
